@@ -172,14 +172,14 @@ def scenarios():
         "h3/app/main.go": "package main\n\nimport \"fmt\"\n\nvar foo = 1\n\nfunc main() { fmt.Println(\"t\", initT().N + foo, initN()) }\n",
         "h3/app/wire.go": INJ + ("package main\n\nimport (\n\tone \"example.com/l/h3/foo\"\n\ttwo \"example.com/l/h3/foo2\"\n\t\"%s\"\n)\n\n"
                                  "func initT() one.T {\n\tpanic(wire.Build(two.NewT, wire.Value(two.Forty)))\n}\n\nfunc initN() int {\n\tpanic(wire.Build(wire.Value(two.Forty)))\n}\n") % W,
-    }, "./h3/app", "t 42 40", ["C14", "C01"])
+    }, "./h3/app", "t 42 40", ["C14", "C01", "C15"])
     # ... and alone, its package name taken by a package-level identifier: the invented alias equals the directory name
     add("H-directory-named-like-the-invented-alias", "H", {
         "h4/foo2/x.go": "package foo\n\nvar Forty = 40\n\nfunc NewS(n int) string { return \"s\" }\n",
         "h4/app/main.go": "package main\n\nimport \"fmt\"\n\nvar foo = 2\n\nfunc main() { fmt.Println(\"n\", initN() + foo, initS()) }\n",
         "h4/app/wire.go": INJ + ("package main\n\nimport (\n\ttwo \"example.com/l/h4/foo2\"\n\t\"%s\"\n)\n\n"
                                  "func initN() int {\n\tpanic(wire.Build(wire.Value(two.Forty)))\n}\n\nfunc initS() string {\n\tpanic(wire.Build(two.NewS, wire.Value(two.Forty)))\n}\n") % W,
-    }, "./h4/app", "n 42 s", ["C14", "C01"])
+    }, "./h4/app", "n 42 s", ["C14", "C01", "C15"])
     # a pointer-typed field selected from a pointer to the struct: the consumer of **T gets the address of the field
     add("H-pointer-to-a-pointer-typed-field", "H", {
         "h6/app/main.go": ("package main\n\nimport \"fmt\"\n\ntype DB struct{ DSN string }\ntype Config struct{ P *DB }\ntype Svc struct {\n\tPP **DB\n\tP  *DB\n}\n\n"
@@ -207,9 +207,9 @@ def scenarios():
     }, "./h5/app", "2 b 2 x 0 2", ["C01", "C02"])
     # a value whose unkeyed literal sets an unexported field of the library's struct
     libu = ("package lib\n\nimport \"%s\"\n\ntype Pair struct {\n\tName   string\n\thidden int\n}\n\nfunc (p Pair) Hidden() int { return p.hidden }\n\n"
-            "var Unkeyed = wire.NewSet(wire.Value(Pair{\"a\", 7}))\nvar Nested = wire.NewSet(wire.Value([]Pair{{\"a\", 7}}))\nvar Keyed = wire.NewSet(wire.Value(Pair{Name: \"k\"}))\n") % W
+            "var Unkeyed = wire.NewSet(wire.Value(Pair{\"a\", 7}))\nvar Nested = wire.NewSet(wire.Value([]Pair{{\"a\", 7}}))\nvar NestedPtr = wire.NewSet(wire.Value([]*Pair{{\"a\", 7}}))\nvar Keyed = wire.NewSet(wire.Value(Pair{Name: \"k\"}))\n") % W
     rxu = r"wire\.go:\d+:\d+: inject initX: value \S+ can't be used: .*unexported field"
-    for g, expr, res in (("u1", "lib.Unkeyed", "lib.Pair"), ("u2", "lib.Nested", "[]lib.Pair")):
+    for g, expr, res in (("u1", "lib.Unkeyed", "lib.Pair"), ("u2", "lib.Nested", "[]lib.Pair"), ("u4", "lib.NestedPtr", "[]*lib.Pair")):
         add("E-unkeyed-literal-with-unexported-field-%s" % g, "E", {
             "%s/lib/lib.go" % g: libu, "%s/app/app.go" % g: "package main\n\nfunc main() {}\n",
             "%s/app/wire.go" % g: INJ + "package main\n\nimport (\n\t\"example.com/l/%s/lib\"\n\t\"%s\"\n)\n\nfunc initX() %s {\n\tpanic(wire.Build(%s))\n}\n" % (g, W, res, expr)},
@@ -218,6 +218,12 @@ def scenarios():
         "u3/lib/lib.go": libu, "u3/app/app.go": "package main\n\nimport \"fmt\"\n\nfunc main() { p := initX(); fmt.Println(p.Name, p.Hidden()) }\n",
         "u3/app/wire.go": INJ + "package main\n\nimport (\n\t\"example.com/l/u3/lib\"\n\t\"%s\"\n)\n\nfunc initX() lib.Pair {\n\tpanic(wire.Build(lib.Keyed))\n}\n" % W},
         "./u3/app", "k 0", ["C13", "C01"])
+    # an injector parameter named like a provider function that a sibling injector uses (the object cache is keyed by name)
+    add("E-parameter-shadowing-a-provider", "E", {
+        "s1/app/app.go": "package main\n\ntype A struct{}\ntype B struct{ A A }\n\nfunc provideA() A { return A{} }\nfunc provideB(a A) B { return B{A: a} }\n\nfunc main() {}\n",
+        "s1/app/wire.go": INJ + ("package main\n\nimport \"%s\"\n\nfunc initB1() B {\n\tpanic(wire.Build(provideA, provideB))\n}\n\n"
+                                 "func initX(provideA wire.ProviderSet) B {\n\tpanic(wire.Build(provideA, provideB))\n}\n") % W},
+        "./s1/app", None, ["C06", "C20", "C10"], reject=r"wire\.go:\d+:\d+: .*provideA .*is not a provider or a provider set")
     return S
 
 
